@@ -10,7 +10,7 @@ PROP = dict(
                "Not modelled: an executor whose table entry was replaced (same peer sends the same id twice while the first response runs) or removed under it - its further steps are marked unmodelled and not compared; two signals pending at one select (Go picks at random) - not compared. "
                "The in-progress count handed to the request-processing listener depends on all peers' requests by design and is not part of the claim. An id that another peer holds when p first asks for it is refused (id squatting is outside the statement).",
     trusted=["verif hook responsemanager.VerifTable (add-only, build tag verif) reports the table from inside the manager's loop; taskqueue.VerifSetTickerChan stops the unused thaw ticker",
-             "edge fakes of the harness: one transaction = one captured message; sent/error reports are delivered by calling the real subscribers directly, streams closed and later messages scrubbed as messagequeue.publishError does; one real task queue per peer, popped by the script"],
+             "edge fakes of the harness: one transaction = one captured message; sent/error reports are delivered by calling the real subscribers directly, streams closed and later messages scrubbed as messagequeue.publishError does; one real task queue per (peer, request id), popped by the script (cross-request scheduling is C21's subject); reports are delivered per (peer, request id) in build order"],
     assumptions=["labels are applied one at a time: the manager loop is idle and at most one executor goroutine runs between two observations (executors park in the block hook)",
                  "all blocks of the served DAG are present (a 3-block chain); extensions dedup-by-key / do-not-send are not used"],
     drive_timeout=1500,
